@@ -3,7 +3,7 @@ from .. import product as P
 
 # family -> (parameter, ordered values from loose to strict)
 DETECT = {
-    "ADWIN": ("delta", [1.0, 0.5, 0.2, 0.05, 0.002, 0.0]), "CUSUM": ("threshold", [2.0, 4.0, 8.0, 20.0]), "PageHinkley": ("threshold", [1.0, 3.0, 10.0, 30.0]),
+    "ADWIN": ("delta", [1.0, 0.5, 0.2, 0.05, 0.002, 0.0]), "CUSUM": ("threshold", [0.0, 2.0, 4.0, 8.0, 20.0]), "PageHinkley": ("threshold", [0.0, 1.0, 3.0, 10.0, 30.0]),
     "DDM": ("drift_scale", [2.0, 2.5, 3.0, 4.0]), "EDDM": ("drift_thresh", [0.95, 0.9, 0.8, 0.6]), "STEPD": ("alpha_drift", [0.1, 0.05, 0.01, 0.001]),
     "LinearFourRates": ("detect_level", [0.1, 0.05, 0.02, 0.005]), "KdqTreeStreaming": ("alpha", [0.3, 0.2, 0.05, 0.01]),
     "KdqTreeBatch": ("alpha", [0.3, 0.2, 0.05, 0.01]), "NNDVI": ("alpha", [0.3, 0.2, 0.05, 0.01]),
@@ -58,6 +58,8 @@ def run(ctx):
                 i1, i2 = [(0, 4), (0, 5), (1, 4)][(i // 4) % 3]     # a count of deviations below one (0.05 / 0.3) against a count of one or more (1.0 / 1.5)
             if vals is not None and i == 0:         # the strictest legal setting of the family against a looser one, every time
                 i2 = len(vs) - 1
+            if vals is not None and i == 1:         # ... and the loosest legal setting (a threshold of exactly 0, delta = 1) against a stricter one
+                i1, i2 = 0, rng.randint(1, len(vs) - 1)
                 i1 = rng.randrange(i2)
             loose, strict = dict(p), dict(p)
             loose[par], strict[par] = vs[i1], vs[i2]
@@ -91,11 +93,21 @@ def run(ctx):
     for i in range(40 if q else 200):
         bi = rng.choice([10, 20, 30])
         p = dict(target=0.0, sd_hat=1.0, burn_in=bi, delta=rng.choice([0.005, 0.05]), direction=rng.choice([None, "positive"]))
-        lo, hi = sorted(rng.sample([2.0, 4.0, 6.0, 10.0, 15.0], 2))
+        lo, hi = sorted(rng.sample([0.0, 2.0, 4.0, 6.0, 10.0, 15.0], 2))
         k = rng.randint(0, bi // 2)
         items = [round(rng.gauss(0, 0.05), 3) for _ in range(k)] + [round(rng.uniform(0.3, 1.5) + rng.gauss(0, 0.05), 3) for _ in range(3 * bi)]
         strict, loose = dict(p, threshold=hi), dict(p, threshold=lo)
         ts.append(P.two_runs("CUSUM", strict, loose, items, rng.randrange(10 ** 6), "FirstDriftNotLater", extra={"par": "threshold"}))
+    # CUSUM / Page-Hinkley with a threshold of exactly 0 (the loosest legal setting: any positive sum alarms) against small positive thresholds, on
+    # streams that creep away from their level slowly, so that the sums stay small for a long time after the burn-in
+    for i in range(24 if q else 120):
+        fam = ("CUSUM", "PageHinkley")[i % 2]
+        bi = rng.choice([5, 10, 20])
+        p = dict(burn_in=bi, delta=rng.choice([0.005, 0.05]), direction=rng.choice([None, "positive", "negative"]) if fam == "CUSUM" else rng.choice(["positive", "negative"]))
+        base, step = rng.choice([2.0, 5.0]), rng.choice([-1, 1]) * rng.choice([0.05, 0.1, 0.2])
+        items = [round(base + rng.gauss(0, 0.3), 3) for _ in range(bi + rng.randint(0, 5))] + [round(base + step * k + rng.gauss(0, 0.3), 3) for k in range(60)]
+        strict, loose = dict(p, threshold=rng.choice([0.5, 1.0, 2.0, 3.0])), dict(p, threshold=0.0)
+        ts.append(P.two_runs(fam, strict, loose, items, rng.randrange(10 ** 6), "FirstDriftNotLater", extra={"par": "threshold"}))
     # Page-Hinkley on streams whose running mean is negative (threshold * mean is then negative: every threshold must alarm at the same sample),
     # with sharp steps in the monitored direction right after the burn-in
     for i in range(30 if q else 150):
